@@ -7,6 +7,7 @@
 """Provides the Template class, a facade for parsing, generating and executing
 template strings, as well as template runtime operations."""
 
+import codecs
 import contextlib
 from importlib import abc
 from importlib import machinery
@@ -636,17 +637,16 @@ class ModuleInfo:
     def source(self):
         if self.template_source is None:
             data = util.read_file(self.template_filename)
-            if self.module._source_encoding:
-                return data.decode(self.module._source_encoding)
-            else:
-                return data
-
-        elif self.module._source_encoding and not isinstance(
-            self.template_source, str
-        ):
-            return self.template_source.decode(self.module._source_encoding)
         else:
-            return self.template_source
+            data = self.template_source
+
+        if self.module._source_encoding and not isinstance(data, str):
+            # the lexer strips a utf-8 byte order mark before decoding
+            if data.startswith(codecs.BOM_UTF8):
+                data = data[len(codecs.BOM_UTF8) :]
+            return data.decode(self.module._source_encoding)
+        else:
+            return data
 
 
 def _compile(template, text, filename, generate_magic_comment):
